@@ -5,6 +5,7 @@ import (
 	"verif/checks/c04"
 	"verif/checks/c05"
 	"verif/checks/c14"
+	"verif/checks/c15"
 )
 
 func init() {
@@ -12,4 +13,5 @@ func init() {
 	Checks["C04"] = c04.Check
 	Checks["C05"] = c05.Check
 	Checks["C14"] = c14.Check
+	Checks["C15"] = c15.Check
 }
